@@ -959,6 +959,16 @@ pub fn execute(case: &Case) -> Outcome {
         opts.add_manual_edge(ManualEdge::new(l.addrs[h], l.addrs[t], cond));
         c.inc("fault.manual-edge");
     }
+    // every other case hands the same options over through the builder API, edges first
+    // and the unsupported-instruction policy last (the two entry points must agree)
+    if n % 2 == 1 {
+        let mut b = falcon::translator::OptionsBuilder::new();
+        for e in opts.manual_edges() {
+            b = b.add_manual_edge(e.clone());
+        }
+        opts = b.unsupported_are_intrinsics(case.intrinsics).build();
+        c.inc("config.options-builder");
+    }
     let case_manual = manual;
     let cap = if arch.is_mips() { None } else { case.window_cap };
     falcon::verif::set_window_cap(cap.unwrap_or(usize::MAX));
